@@ -90,6 +90,9 @@ def oracle_c03(ctx):
             vals.append(g.deep_ok(g.r.choice([4, 16, 32])))
         else:
             vals.append(g.value_ok(depth=g.r.choice([0, 0, 1, 2, 3, 4]), breadth=g.r.choice([1, 2, 3, 5])))
+    vals += [g.shared_value_ok(g.r.choice([1, 2, 3]), 3) for _ in range(300 if ctx.thorough else 60)]
+    t_ = ['a', 'b']
+    vals += [{'x': t_, 'y': t_}, [t_, t_], [{'k': t_}, {'k': t_}]]
     for i, v in enumerate(vals):
         legacy = (i % 3 == 0)
         junk = g.r.choice([b'', b'', b'\x00', b'V', b'\xce', bytes(g.r.getrandbits(8) for _ in range(4))])
@@ -308,6 +311,11 @@ def oracle_c18(ctx):
                     res.violation('body round trip', {'fn': 'c18_body_case', 'args': pyrepr((content, ch, junk))} if n <= 4096 else
                                   {'fn': 'c18_body_case', 'args': '(%r * %d, %d, %r)' % (content[:1], n, ch, junk)},
                                   'round trip', bad if k == 'ok' else repr(bad))
+    for ch_ in (1, 255, 256, 32768, 65535):
+        res.case('heartbeat ch %d' % ch_, tag='heartbeat')
+        kh, bh = catching(frame.marshal, heartbeat.Heartbeat(), ch_)
+        if kh != 'ok' or bh != b'\x08\x00\x00\x00\x00\x00\x00\xce':
+            res.violation('heartbeat encoded on channel %d' % ch_, {'fn': 'none', 'args': '()'}, '08000000000000ce', bh.hex() if kh == 'ok' else repr(bh))
     hb = frame.marshal(heartbeat.Heartbeat(), 0)
     res.case('heartbeat', tag='heartbeat')
     k, r = catching(frame.unmarshal, hb + b'\x01')
@@ -579,6 +587,14 @@ def valid_frames(ctx, n, boundaries=False):
         out.append((f_, ch_, frame.marshal(f_, ch_)))
     for ch_ in (0, 65535):       # the empty body frame is a frame too (D12)
         out.append((body.ContentBody(b''), ch_, frame.marshal(body.ContentBody(b''), ch_)))
+    for meta in ctx.generated['catalogue']['methods']:
+        cls_ = commands.INDEX_MAPPING.get(meta['key'])
+        if cls_ is not None:
+            f_ = real.make_method(cls_, lanes.method_vals_ok(ctx, cls_, meta))
+            try:
+                out.append((f_, 9, frame.marshal(f_, 9)))
+            except Exception:  # noqa
+                pass
     for _ in range(n):
         f, ch = lanes.random_frame(ctx)
         try:
@@ -1094,7 +1110,8 @@ def c11_case(n, legacy, how):
         else:
             encode.support_deprecated_rabbitmq(legacy)
         outs = {'top': catching(encode.table_integer, n), 'value': catching(encode.encode_table_value, n),
-                'array': catching(encode.field_array, [n]), 'table': catching(encode.field_table, {'k': [{'n': n}]})}
+                'array': catching(encode.field_array, [n]), 'table': catching(encode.field_table, {'k': [{'n': n}]}),
+                'longkeys': catching(encode.field_table, {'z' * 130: 1, 'z' * 131: n, 'y' * 128: n, 'y' * 129: 5})}
     finally:
         encode.DEPRECATED_RABBITMQ_SUPPORT = old
     for where, (k, b) in outs.items():
@@ -1102,6 +1119,11 @@ def c11_case(n, legacy, how):
             if not (k == 'err' and isinstance(b, TypeError)):
                 return ('%s: TypeError' % where, '%s %r' % (k, b))
         else:
+            if where == 'longkeys':
+                want_lk = refenc.table({'z' * 130: 1, 'z' * 131: n, 'y' * 128: n, 'y' * 129: 5}, legacy)
+                if k != 'ok' or b != want_lk:
+                    return ('longkeys: %s' % want_lk.hex()[:80], b.hex()[:80] if k == 'ok' else '%s %r' % (k, b))
+                continue
             want = {'top': exp, 'value': exp, 'array': struct.pack('>I', len(exp)) + exp,
                     'table': struct.pack('>I', 14 + len(exp)) + b'\x01kA' + struct.pack('>I', 7 + len(exp)) + b'F' + struct.pack('>I', 2 + len(exp)) + b'\x01n' + exp}[where]
             if k != 'ok' or b != want:
@@ -1651,6 +1673,37 @@ def oracle_c14(ctx):
                 if got != want:
                     res.violation('%s: default of %s after another instance\'s default was mutated' % (cls.name, a),
                                   {'fn': 'c14_case', 'args': pyrepr((cls.name,))}, want, got)
+    # one argument supplied at a time (several values per wire type): the OMITTED ones keep their defaults
+    probes = {'octet': [0, 1, 9, 255], 'short': sorted(set([0, 1, 200, 65535] + [x for x in getattr(ctx, 'literals', []) if 0 <= x <= 65535][:40])),
+              'long': [0, 1, 200, 2 ** 32 - 1], 'longlong': [0, 1, -1, 200], 'shortstr': ['', 'x', '0'], 'longstr': ['', 'x'],
+              'bit': [True, False], 'table': [{}, {'a': 1}], 'timestamp': []}
+    for (cname, cid), methods in S.SPEC.items():
+        for (mname, mid, resp, args) in methods:
+            cls = commands.INDEX_MAPPING.get(cid << 16 | mid)
+            if cls is None:
+                continue
+            for (a, t, d) in args:
+                for v in probes.get(t, []):
+                    kk, inst = catching(cls, **{S.pyname(a): v})
+                    res.case('%s(%s=%r)' % (cls.name, a, v), tag='one argument given')
+                    if kk != 'ok':
+                        continue
+                    for (a2, t2, d2) in args:
+                        if a2 == a:
+                            continue
+                        want = {} if t2 == 'table' else d2
+                        got = getattr(inst, S.pyname(a2))
+                        if got != want or (want is not None and type(got) is not type(want)):
+                            res.violation('%s(%s=%r): omitted argument %s' % (cls.name, a, v, a2), {'fn': 'c14_case', 'args': pyrepr((cls.name,))}, want, got)
+    # ... and after all that use the class-level facts are still the specification's
+    for (cname, cid), methods in S.SPEC.items():
+        for (mname, mid, resp, args) in methods:
+            cls = commands.INDEX_MAPPING.get(cid << 16 | mid)
+            res.case('again %s.%s' % (cname, mname), tag='catalogue after use')
+            if cls is not None and (list(cls.valid_responses) != [S.camel(cname) + '.' + S.camel(r) for r in resp]
+                                    or cls.synchronous is not bool(resp) or list(cls.__slots__) != [S.pyname(x[0]) for x in args]):
+                res.violation('%s.%s: class-level catalogue facts changed after ordinary use' % (cname, mname), {'fn': 'c14_case', 'args': pyrepr((cls.name,))},
+                              (resp, [x[0] for x in args]), (cls.valid_responses, cls.__slots__))
     before = dict(commands.INDEX_MAPPING)
     try:
         probe = type('VerifProbe', (commands.Basic.Publish,), {})
@@ -1815,13 +1868,22 @@ for secs, micro, kind, offmin in cases:
         v = base
     elif kind == 'aware':
         v = base.replace(tzinfo=UTC).astimezone(datetime.timezone(datetime.timedelta(minutes=offmin)))
+    elif kind == 'struct_local':
+        lt = time.localtime(secs)          # tm_gmtoff / tm_isdst of the child's zone
+        v = lt
+        secs = calendar.timegm(lt)         # "a struct_time is encoded as if it were UTC": its FIELDS read as UTC
+        if not 0 <= secs < 2 ** 32:
+            out.append(['skip'])
+            continue
+    elif kind == 'struct_z':
+        v = time.strptime(time.strftime('%Y-%m-%d %H:%M:%S', time.gmtime(secs)) + ' +0530', '%Y-%m-%d %H:%M:%S %z')
     else:
         v = time.struct_time(time.gmtime(secs))
     try:
         b = encode.timestamp(v)
         n, d = decode.timestamp(b)
         t = encode.encode_table_value({'t': v, 'l': [v]})
-        out.append([b.hex(), n, d.isoformat(), str(d.tzinfo), d.utcoffset().total_seconds(), t.hex()])
+        out.append([b.hex(), n, d.isoformat(), str(d.tzinfo), d.utcoffset().total_seconds(), t.hex(), secs])
     except Exception as e:
         out.append(['err', repr(e)])
 json.dump(out, sys.stdout)
@@ -1839,6 +1901,8 @@ def oracle_c15(ctx):
             if 0 <= s + d < 2 ** 32:
                 cases.append([s + d, 0, 'naive', 0])
                 cases.append([s + d, 0, 'struct', 0])
+                cases.append([s + d, 0, 'struct_local', 0])
+                cases.append([s + d, 0, 'struct_z', 0])
                 cases.append([s + d, 999999, 'aware', g.r.choice([0, 60, -300, 330, 345, 765, 840, -660])])
     for _ in range(3000 if ctx.thorough else 300):
         cases.append([g.instant_secs(), g.r.choice([0, 1, 999999]), g.r.choice(['naive', 'aware', 'struct']),
@@ -1859,16 +1923,19 @@ def oracle_c15(ctx):
         outs[tz] = json.loads(o)
     for i, c in enumerate(cases):
         secs, micro, kind, offmin = c
-        exp_bytes = struct.pack('>Q', secs).hex()
-        exp_iso = (EPOCH + datetime.timedelta(seconds=secs)).isoformat()
         res.case(json.dumps(c), trivial=False, tag=kind, sample={'case': c, 'tz_settings': len(outs)})
         for tz, o in outs.items():
             r = o[i]
+            if r[0] == 'skip':
+                continue
+            secs_eff = r[6] if (kind == 'struct_local' and len(r) > 6) else secs      # local fields read as UTC
+            exp_bytes = struct.pack('>Q', secs_eff).hex()
+            exp_iso = (EPOCH + datetime.timedelta(seconds=secs_eff)).isoformat()
             if r[0] == 'err' or r[0] != exp_bytes or r[1] != 8 or r[2] != exp_iso or r[4] != 0.0:
                 res.violation('TZ=%s %s secs=%d' % (tz, kind, secs), {'fn': 'c15_case', 'args': pyrepr((tz, c))},
                               (exp_bytes, 8, exp_iso, 'UTC'), r[:5])
                 break
-            if r != outs['UTC'][i]:
+            if kind != 'struct_local' and r != outs['UTC'][i]:
                 res.violation('result differs between TZ=UTC and TZ=%s' % tz, {'fn': 'c15_case', 'args': pyrepr((tz, c))}, outs['UTC'][i][:5], r[:5])
                 break
     res.notes.append('%d TZ settings x %d instants (child processes)' % (len(outs), len(cases)))
